@@ -28,6 +28,8 @@ for sid in ids:
         meta = json.load(open(os.path.join(d, 'agent_meta.json')))
         meta['property'] = pid
         meta['origin'] = 'written by an independent sub-agent that saw only the property text and a scratch worktree of /repo (nothing from /verif)'
+        cf = os.path.join(d, 'confirmed.json')
+        if os.path.exists(cf): meta['confirmed'] = json.load(open(cf))
     meta['detection'] = det
     json.dump(meta, open(mp, 'w'), indent=1)
     tag = hashlib.sha256(os.path.realpath(M).encode()).hexdigest()[:10]
